@@ -1366,6 +1366,28 @@ class _Spell(ast.NodeTransformer):
                 node.args[k] = ast.copy_location(ast.Starred(value=comp(a.value),
                                                              ctx=ast.Load()), a)
                 self.changed = True
+        # list(filter(F, X)) is [x for x in X if F(x)]; filter(None, X) tests x itself
+        if isinstance(node.func, ast.Name) and node.func.id in ('list', 'tuple') and \
+                len(node.args) == 1 and not node.keywords and \
+                isinstance(node.args[0], ast.Call) and \
+                isinstance(node.args[0].func, ast.Name) and node.args[0].func.id == 'filter' \
+                and len(node.args[0].args) == 2 and not node.args[0].keywords and \
+                (isinstance(node.args[0].args[0], (ast.Name, ast.Attribute)) or
+                 _is_const(node.args[0].args[0], None)):
+            fl = node.args[0]
+            v = ast.Name(id='_f', ctx=ast.Load())
+            test = v if _is_const(fl.args[0], None) else ast.Call(
+                func=fl.args[0], args=[ast.Name(id='_f', ctx=ast.Load())], keywords=[])
+            c = ast.ListComp(elt=ast.Name(id='_f', ctx=ast.Load()), generators=[
+                ast.comprehension(target=ast.Name(id='_f', ctx=ast.Store()),
+                                  iter=fl.args[1], ifs=[test], is_async=0)])
+            ast.copy_location(c, node)
+            ast.fix_missing_locations(c)
+            self.changed = True
+            if node.func.id == 'list':
+                return c
+            node.args = [c]
+            return node
         if isinstance(node.func, ast.Name) and node.func.id in ('list', 'tuple') and \
                 len(node.args) == 1 and not node.keywords and is_map(node.args[0]):
             c = comp(node.args[0])
